@@ -17,6 +17,8 @@ B_THOROUGH = B_QUICK + ['x64-soft', 'x64-alt1', 'x64-alt2', 'x64-aesni-all', 'a6
                         'x86-soft-all', 'x86-alt1-all']
 
 REGISTRY = {
+    'C19': dict(module='c19', level='proof', technique='use analysis of `self` + string constant propagation over formatting MIR (static analysis)',
+                quick=['x64', 'x64-soft-all'], thorough=['x64', 'x64-all', 'x64-soft-all', 'x64-alt1-all', 'x64-alt2-all', 'a64', 'a64-soft-all', 'x86-all', 'x86-alt1-all']),
     'C12': dict(module='c12', level='other', technique='dominator / provenance dataflow and call-set agreement over MIR (static analysis)',
                 quick=B_QUICK, thorough=B_THOROUGH),
     'C15': dict(module='c15', level='proof', technique='effect / ownership analysis over the whole-program call graph (static analysis)',
